@@ -50,6 +50,11 @@ fn all_tags() -> Vec<u32> {
 }
 
 struct Conn {
+    /// right edge of the receive window as last advertised in an emitted frame (largest seen), our
+    /// window-scale offer and whether the peer offered one too
+    adv_edge: Option<u32>,
+    ws_ours: Option<u8>,
+    ws_peer: bool,
     iss: Option<u32>,
     irs: Option<u32>,
     consumed: u64,
@@ -62,7 +67,7 @@ fn oracle_case(c: &Case, fails: &mut Vec<String>, stats: &mut BTreeMap<String, u
     let cfg = Cfg::from_case(c);
     let mut sim = Sim::new(&cfg);
     let mut isns = cfg.isns.clone();
-    let mut conn = Conn { iss: None, irs: None, consumed: 0, sent: 0, fin_rcvd: false, listener: false };
+    let mut conn = Conn { adv_edge: None, ws_ours: None, ws_peer: false, iss: None, irs: None, consumed: 0, sent: 0, fin_rcvd: false, listener: false };
     let mut timeout: Option<i64> = None;
     let mut tw_enter: i64 = 0; // time TIME-WAIT was entered: the timer never expires before this + 10 s
     let mut tw_since: i64 = 0; // time of the last event that may have refreshed it (upper bound)
@@ -89,10 +94,13 @@ fn oracle_case(c: &Case, fails: &mut Vec<String>, stats: &mut BTreeMap<String, u
             fails.push(format!("{} :: case {} op#{} `{}`: {:?} -> {:?}: {}", class, c.id, k, op, pre, post, why));
         };
         *stats.entry(format!("edge_{}>{}", state_name(pre), state_name(post))).or_default() += (pre != post) as u64;
+        // the window edge advertised BEFORE this event is what the event is judged against
+        let conn_edge_before = conn.adv_edge;
+        let _ = conn_edge_before;
         match toks[0] {
             "listen" => {
                 if st.ret == "ok" && !(pre == S::Listen) {
-                    conn = Conn { iss: None, irs: None, consumed: 0, sent: 0, fin_rcvd: false, listener: true };
+                    conn = Conn { adv_edge: None, ws_ours: None, ws_peer: false, iss: None, irs: None, consumed: 0, sent: 0, fin_rcvd: false, listener: true };
                 }
                 let ok = pre == post || (matches!(pre, S::Closed | S::TimeWait) && post == S::Listen);
                 if !ok {
@@ -102,7 +110,7 @@ fn oracle_case(c: &Case, fails: &mut Vec<String>, stats: &mut BTreeMap<String, u
             "connect" => {
                 if st.ret == "ok" {
                     let iss = if isns.is_empty() { None } else { Some(isns.remove(0)) };
-                    conn = Conn { iss, irs: None, consumed: 0, sent: 0, fin_rcvd: false, listener: false };
+                    conn = Conn { adv_edge: None, ws_ours: None, ws_peer: false, iss, irs: None, consumed: 0, sent: 0, fin_rcvd: false, listener: false };
                 }
                 let ok = pre == post || (matches!(pre, S::Closed | S::TimeWait) && post == S::SynSent);
                 if !ok {
@@ -179,9 +187,17 @@ fn oracle_case(c: &Case, fails: &mut Vec<String>, stats: &mut BTreeMap<String, u
                         // RFC 9293 segment acceptability test (3.10.7.4, the `segment_in_window` the property
                         // anchors in), with the largest window this socket can ever advertise (its capacity):
                         // the first or, for a segment with data, the last octet lies in the window
-                        let d = sdiff(seq, rn);
-                        let e = sdiff(wadd(seq, len - 1), rn);
-                        (d >= 0 && d <= sim.rx_cap as i64) || (len > 0 && e >= 0 && e <= sim.rx_cap as i64)
+                        // when the socket has advertised a window in some frame, the largest right edge it
+                        // ever advertised bounds the window (a zero window still accepts seq = RCV.NXT)
+                        let wnd = match conn.adv_edge {
+                            Some(edge) => sdiff(edge, rn).max(0),
+                            None => sim.rx_cap as i64,
+                        };
+                        let inw = |x: u32| {
+                            let d = sdiff(x, rn);
+                            d >= 0 && (d < wnd || (wnd == 0 && d == 0 && len == 0))
+                        };
+                        inw(seq) || (len > 0 && wnd > 0 && inw(wadd(seq, len - 1)))
                     });
                 if pre != post {
                     match (pre, post) {
@@ -277,6 +293,29 @@ fn oracle_case(c: &Case, fails: &mut Vec<String>, stats: &mut BTreeMap<String, u
                 *stats.entry("polls".into()).or_default() += 1;
             }
             _ => {}
+        }
+        if toks[0] == "seg" && kv(&toks, "fl").unwrap_or("-").contains('S') && opt_i(kv(&toks, "ws")).is_some() {
+            conn.ws_peer = true;
+        }
+        for t in &st.txs {
+            if t.ctl == TcpControl::Syn {
+                conn.ws_ours = t.ws;
+            }
+            if t.ctl == TcpControl::Rst {
+                continue;
+            }
+            if let Some(a) = t.ack {
+                let shift = match (conn.ws_ours, conn.ws_peer) {
+                    (Some(w), true) => w.min(14) as u32,
+                    _ => 0,
+                };
+                let w = if t.ctl == TcpControl::Syn { ((t.win as i64) >> shift) << shift } else { (t.win as i64) << shift };
+                let e = wadd(a, w);
+                conn.adv_edge = Some(match conn.adv_edge {
+                    Some(old) if sdiff(old, e) > 0 => old,
+                    _ => e,
+                });
+            }
         }
         if pre != post {
             *stats.entry("transitions".into()).or_default() += 1;
